@@ -507,6 +507,10 @@ GroupPositions(gids, sel) == SelectIdx(gids, LAMBDA g : g = sel, 1)
 RECURSIVE Build(_)
 BuildUnary(a, t) ==
   CASE a.op = "map"  -> BOk(OMap([nm |-> a.f], t))
+    \* ParMapDataset(MapDataset): indexable / len / keys / __getitem__ inherited;
+    \* __iter__ = lazy_parallel_map(fn, input or input.__iter__(with_key=True)):
+    \* results in submission order (PoolMap.tla), so the same model object
+    [] a.op = "pmap" -> IF a.w < 1 THEN BErr("AssertionError") ELSE BOk(OMap([nm |-> a.f], t))
     [] a.op = "fmap" -> BOk(OMap([nm |-> "fail", p |-> a.p, cls |-> a.cls], t))
     [] a.op = "filter" ->
          IF a.lazy THEN BOk(OFilter(a.p, t))
